@@ -1,7 +1,7 @@
 ----------------------------- MODULE MC_BuildDecode -----------------------------
 EXTENDS BuildDecode, Json
 Emit == PrintT(<<"REPLAY", ToJson([op |-> "build", kind |-> kind, serial |-> serial, times |-> times, res |-> res,
-                                   uriform |-> uriform, items |-> items,
+                                   uriform |-> uriform, items |-> items, feed |-> feed,
                                    nb |-> Window(times)[1], na |-> Window(times)[2],
                                    tag_nb |-> Tag(Window(times)[1]), tag_na |-> Tag(Window(times)[2]),
                                    enc_nb |-> Enc(Window(times)[1]), enc_na |-> Enc(Window(times)[2]),
